@@ -916,7 +916,7 @@ func (db *DB) sendToWriteCh(entries []*Entry) (*request, error) {
 	}
 	var count, size int64
 	for _, e := range entries {
-		size += e.estimateSizeAndSetThreshold(db.valueThreshold())
+		size += e.estimateSizeAndSetThreshold(db.storedThreshold())
 		count++
 	}
 	y.NumBytesWrittenUserAdd(db.opt.MetricsEnabled, size)
